@@ -180,6 +180,7 @@ pub struct Counters {
 	pub errno_injected: u64,
 	pub snapshots_proc: u64,
 	pub snapshots_power: u64,
+	pub trunc_reverted: u64,
 	pub getrandom_calls: u64,
 	pub monitor_checks: u64,
 }
@@ -203,6 +204,10 @@ pub struct Disk {
 	fds: HashMap<i32, String>,
 	maps: Vec<MapInfo>,
 	pub shadow: BTreeMap<String, Shadow>,
+	/// Log files truncated to zero and not synced since: durable content before the truncation. A
+	/// power-loss image may still hold that content (the truncation itself is not durable before
+	/// the file is synced).
+	pub pending_trunc: BTreeMap<String, Shadow>,
 	pub seq: u64,
 	pub fingerprint: u64,
 	pub events: Vec<Event>,
@@ -284,6 +289,7 @@ pub fn install(root: &str, seed: u64, snap_base: &str) {
 		fds: HashMap::new(),
 		maps: Vec::new(),
 		shadow: BTreeMap::new(),
+		pending_trunc: BTreeMap::new(),
 		seq: 0,
 		fingerprint: 0,
 		events: Vec::new(),
@@ -348,12 +354,14 @@ impl Disk {
 		self.fds.clear();
 		self.maps.clear();
 		self.shadow.clear();
+		self.pending_trunc.clear();
 		self.rescan_all_durable();
 	}
 
 	/// Declare everything currently in the root directory durable.
 	pub fn rescan_all_durable(&mut self) {
 		self.shadow.clear();
+		self.pending_trunc.clear();
 		if let Ok(rd) = std::fs::read_dir(&self.root) {
 			let mut names: Vec<String> = rd
 				.filter_map(|e| e.ok())
@@ -542,6 +550,14 @@ impl Disk {
 							write_sparse(&dst, &out);
 						},
 						FileClass::Log => {
+							if let Some(old) = self.pending_trunc.get(n) {
+								// truncated, not yet synced: the old content may still be what the disk holds
+								if self.rng.below(2) == 0 {
+									self.counters.trunc_reverted += 1;
+									let _ = std::fs::write(&dst, &flatten(old));
+									continue
+								}
+							}
 							let live = read_flat(&src);
 							let empty = Shadow::default();
 							let dur = self.shadow.get(n).unwrap_or(&empty);
@@ -582,6 +598,7 @@ impl Disk {
 
 	/// durable := live for one file.
 	fn sync_file(&mut self, name: &str) {
+		self.pending_trunc.remove(name);
 		let sh = read_sparse(&format!("{}{}", self.root, name));
 		self.shadow.insert(name.to_string(), sh);
 	}
@@ -1062,6 +1079,14 @@ unsafe fn ftruncate_impl(fd: c_int, len: off_t) -> c_int {
 		if res == 0 {
 			// Size changes made by an explicit truncate are modelled as immediately durable
 			// (journaled metadata, in order); page contents are not.
+			if classify(&name) == FileClass::Log && len == 0 {
+				if let Some(old) = d.shadow.get(&name) {
+					if old.size > 0 && !d.pending_trunc.contains_key(&name) {
+						let old = old.clone();
+						d.pending_trunc.insert(name.clone(), old);
+					}
+				}
+			}
 			let sh = d.shadow.entry(name.clone()).or_default();
 			let new = len as u64;
 			if new < sh.size {
